@@ -332,7 +332,16 @@ func (g *tGen) structFields(depth int, withKey bool) []*tField {
 		fs = append(fs, f)
 	}
 	if depth > 0 && g.r.Intn(2) == 0 {
-		fs = append(fs, g.aggregate(len(fs)+1, depth-1))
+		first := g.aggregate(len(fs)+1, depth-1)
+		fs = append(fs, first)
+		// sometimes two aggregate children (e.g. a horizontal list, then a nested vertical map): which of them
+		// decides whether the parent key may repeat
+		if g.r.Intn(2) == 0 {
+			second := g.aggregate(len(fs)+1, depth-1)
+			if second.name != first.name {
+				fs = append(fs, second)
+			}
+		}
 	}
 	return fs
 }
